@@ -197,7 +197,7 @@ Fixpoint has_job_dir (n : node) : bool :=
   | _ => false
   end.
 
-(* open findings only: 3 = empty selection links an unselected job, 5 = the leaf name used as a token *)
+(* open finding only: 5 = the leaf name used as a token *)
 Definition classify_C17 (k : case_C17) : N :=
   let c := k_call k in
   let vp := vprefix c (c_prefix c) in
@@ -205,8 +205,7 @@ Definition classify_C17 (k : case_C17) : N :=
   | Err _ => 0
   | Ok lk =>
       let ks := keys_of lk in
-      if is_nil (c_jobs c) && negb (is_nil (c_all c)) then 3
-      else if existsb nonfinal_has_job ks
+      if existsb nonfinal_has_job ks
               || match get (k_pre k) vp with Some n => has_job_dir n | None => false end then 5
       else 0
   end.
